@@ -38,7 +38,7 @@ func (c14) Info(tier string) fw.Info {
 	n, m := tierNM(tier)
 	return fw.Info{
 		Level: "exploration",
-		Rule: fmt.Sprintf("programs built to be sensitive to map order (>= 3 modules with shared helper/global naming schemes, objects with 4..12 fields printed whole / as JSON / key lists / through any-objects, many locals and shadowing, scopes with up to 25 unused items, impl blocks with several capabilities and methods, rejected programs whose messages print object types, programs ending in fatal errors with stack traces, singletons, match, objects with 4..12 fields of which 2..4 cannot be encoded as JSON — ranges, functions, non-finite floats, directly / in lists / options / nested objects — passed to to_json / to_json_indent as typed objects, any-objects, in lists and inside other objects, JSON decoding under an object type with several offending members, programs that write in place — option / list / string / number / nested-object fields — into objects whose storage the runtime handed out: default values of singletons of the entry and of an imported module, results of runtime casts, decoded JSON, and print every producer of `none` before and after, programs of 3..5 modules around a module that several others import with 1..4 lines carrying recoverable or critical syntax errors in the shared module / another imported module / the entry, rejected programs with one or two impl blocks — templates whose selected capabilities require 2..8 methods, some with pub / event modifiers and a default capability — in which two or more required methods are faulty at once: missing, one parameter too many / too few, renamed or retyped parameter, other return type, wrong modifier, singleton not extracted, plus additional methods / an unknown capability / an undeclared singleton, programs that change in place what the host hands out — the list behind `import { any_list } from testing` through push / push_front / insert / pop / pop_front / remove / concat in main, loops, helper functions, function literals, before a caught throw and from a second importing module; the object `http.get` returns — and print it before, in between and after, programs that decode JSON objects containing 1..2 groups of keys that are different strings but equal after Unicode normalisation / case folding / trimming / unescaping, each member with its own value, among 0..8 ordinary keys, at top level / nested / in lists / inside a typed object, 2..5 times each, and print key counts, key lists, members, renderings, equality of two decodes and a re-decode), the generated programs of hv/prog and the shipped examples/tests; "+
+		Rule: fmt.Sprintf("programs built to be sensitive to map order (>= 3 modules with shared helper/global naming schemes, objects with 4..12 fields printed whole / as JSON / key lists / through any-objects, many locals and shadowing, scopes with up to 25 unused items, impl blocks with several capabilities and methods, rejected programs whose messages print object types, programs ending in fatal errors with stack traces, singletons, match, objects with 4..12 fields of which 2..4 cannot be encoded as JSON — ranges, functions, non-finite floats, directly / in lists / options / nested objects — passed to to_json / to_json_indent as typed objects, any-objects, in lists and inside other objects, JSON decoding under an object type with several offending members, programs that write in place — option / list / string / number / nested-object fields — into objects whose storage the runtime handed out: default values of singletons of the entry and of an imported module, results of runtime casts, decoded JSON, and print every producer of `none` before and after, programs of 3..5 modules around a module that several others import with 1..4 lines carrying recoverable or critical syntax errors in the shared module / another imported module / the entry, rejected programs with one or two impl blocks — templates whose selected capabilities require 2..8 methods, some with pub / event modifiers and a default capability — in which two or more required methods are faulty at once: missing, one parameter too many / too few, renamed or retyped parameter, other return type, wrong modifier, singleton not extracted, plus additional methods / an unknown capability / an undeclared singleton, programs that change in place what the host hands out — the list behind `import { any_list } from testing` through push / push_front / insert / pop / pop_front / remove / concat in main, loops, helper functions, function literals, before a caught throw and from a second importing module; the object `http.get` returns — and print it before, in between and after, programs that decode JSON objects containing 1..2 groups of keys that are different strings but equal after Unicode normalisation / case folding / trimming / unescaping, each member with its own value, among 0..8 ordinary keys, at top level / nested / in lists / inside a typed object, 2..5 times each, and print key counts, key lists, members, renderings, equality of two decodes and a re-decode, programs that put 6..12 values of every kind — numbers, bools, strings, null, lists, objects, any-objects, ranges, functions, options of each of these, none, options of options — into an any-object and cast the members read through ~> / -> / get, nested in objects and lists, in loops, in a helper, under annotated lets and out of decoded JSON to the type the option holds / another option / another member type / the right type, printing e.message or the whole error from a catch or leaving the last cast uncaught), the generated programs of hv/prog and the shipped examples/tests; "+
 			"each program is analysed twice, compiled, run on the VM and on the interpreter N=%d times in one process (fewer for programs that execute more than 200k steps), with an unrelated program reusing the same module names run in between, and three times in each of M=%d fresh processes; in the first repetition of the case and in the first one of every fresh process the compile output is run by a second VM after the first one and the analysed modules are interpreted a second time (compiled once, run twice), and programs of the host-value and JSON-key families are also analysed, compiled and run with the repository's own testing hosts (TestingAnalyzerHost, TestingVmExecutor and their scope additions); "+
 			"compared component-wise: syntax errors, sorted diagnostic multiset (level, message, span), the same with notes, VM outcome with the full message and stack trace, VM output, VM host-call log, the same three for the interpreter, canonical dump of the compiler output, outcome and output under the repository's testing host; and within a repetition: second VM run = first VM run, second interpreter run = first interpreter run (outcome and host-call log). "+
 			"non-trivial = at least 3 repetitions completed and the program produced >= 2 diagnostics (syntax errors included) or ran with >= 3 lines of output; distinct = distinct sources", n, m),
@@ -190,7 +190,7 @@ func (c14) Cases(tier string, seed uint64) []fw.Case {
 	for fi, fam := range LateFamilyNames {
 		lr := fw.NewRng(seed ^ 0xC14 ^ uint64(fi+1)<<32)
 		nFam := perFam
-		if fam == "hostvals" || fam == "jsonkeys" {
+		if fam == "hostvals" || fam == "jsonkeys" || fam == "casterr" {
 			// every program of these families exercises its construct (self-tests in c14_test.go):
 			// half the number keeps the quick tier within its time budget
 			nFam = perFam / 2
@@ -587,7 +587,7 @@ func (c14) Run(c fw.Case) fw.Result {
 		res.Cover = append(res.Cover, "construct:"+TagJsonMixed)
 	}
 	for _, t := range c.Tags {
-		if strings.HasPrefix(t, "cell-") || strings.HasPrefix(t, "syn-") || strings.HasPrefix(t, "implerr-") || strings.HasPrefix(t, "host-") || strings.HasPrefix(t, "jkey-") {
+		if strings.HasPrefix(t, "cell-") || strings.HasPrefix(t, "syn-") || strings.HasPrefix(t, "implerr-") || strings.HasPrefix(t, "host-") || strings.HasPrefix(t, "jkey-") || strings.HasPrefix(t, "casterr-") {
 			res.Cover = append(res.Cover, "construct:"+t)
 		}
 	}
